@@ -115,6 +115,11 @@ class EventsDomain:
                 st = self._walk_expr(st, c)
         if isinstance(e, (ast.Call, ast.Await)):
             self.observe(e, st, self.fi)
+            if getattr(self, "events_before_raise", False):
+                # "the call was reached" semantics: the event holds on the exceptional edges out of the call as well
+                evs0 = self.event_of(e, self.fi)
+                if evs0:
+                    st = st.add(*evs0)
             # a call/await inside a try body may raise whatever the enclosing handlers are prepared to catch
             from .flow import TryFrame
             names = []
